@@ -47,5 +47,5 @@ static inline SequenceType seq_num_inc(SequenceType value, SequenceType i)
 static inline DifferenceType seq_num_diff(SequenceType a, SequenceType b)
 {
 	const size_t ShiftValue = sizeof(DifferenceType) * 8 - SequenceNumberBits;
-	return (DifferenceType)((a - b) << ShiftValue) >> ShiftValue;
+	return (DifferenceType)((uint32_t)(a - b) << ShiftValue) >> ShiftValue;
 }
